@@ -44,6 +44,93 @@ u, v = TrialFunction(V), TestFunction(V)
 a = inner(u, v)*dx
 '''
 
+UFL_TINY = '''
+import basix.ufl
+from ufl import *
+e = basix.ufl.element("Lagrange", "interval", 1)
+mesh = Mesh(basix.ufl.element("Lagrange", "interval", 1, shape=(1,)))
+V = FunctionSpace(mesh, e)
+u, v = TrialFunction(V), TestFunction(V)
+a = u*v*dx
+'''
+
+# file stems for the namespace / output-name half: every printable ASCII punctuation character
+# (but "/"), runs of them, the characters the sanitiser itself uses, non-ASCII text
+PINNED_STEMS = ["mass^2", "stokes[p2-p1]", "a`b\\c", "x!!y!z", "\u00e9t\u00e9 \u4e2d\u6587", "A-z", "~t{1}|", "q@#$%&*()+=,;'", 'say "hi" <now>?',
+                "tab\tsep", "dots.v2..x", "__keep__9", "a:b"]
+
+
+def random_stems(seed, n):
+    import random
+    rnd = random.Random(f"c20-{seed}")
+    pool = [chr(c) for c in range(32, 127) if chr(c) != "/"] + ["\u00df", "\u03bb", "\u2028", "\U0001f600"]
+    idc = "abcXYZ019_"
+    out = []
+    for _ in range(n):
+        k = rnd.randint(1, 9)
+        st = "".join(rnd.choice(pool) if rnd.random() < 0.5 else rnd.choice(idc) for _ in range(k))
+        out.append(st.rstrip(". ") or "x")
+    return out
+
+
+def stems_check(v, tmp, seed, tier):
+    """correspondence Sanit.run_steps OptGen.sanitise_steps <-> ffcx.main on the same file names,
+    and the property itself (files written, alias an identifier, source compiles) on each"""
+    stems = PINNED_STEMS + random_stems(seed, 12 if tier == "quick" else 60)
+    stems = [f"f{i}_{st}" for i, st in enumerate(stems)]           # unique, never starting with - or .
+    path = os.path.join(common.GEN, "C20_cases.v")
+    lits = ["[" + "; ".join(str(ord(ch)) for ch in st) + "]%N" for st in stems]
+    open(path, "w").write("From Coq Require Import NArith List.\nFrom FFCX Require Import Sanit.\nFrom FFCXGen Require Import OptGen.\nImport ListNotations.\n"
+                          "Eval vm_compute in map (run_steps sanitise_steps) [\n " + ";\n ".join(lits) + "].\n")
+    out = common.coqc_many([path], timeout=300)[path]
+    m = re.search(r"=\s*\[(.*)\]\s*:\s*list \(list N\)", out[1], re.S) if out[0] == 0 else None
+    model = None
+    if m:
+        model = ["".join(chr(int(x)) for x in re.findall(r"\d+", row)) for row in re.findall(r"\[([^\[\]]*)\]", m.group(1))]
+    if model is None or len(model) != len(stems):
+        v.oblige(False)
+        v.violation("sanitise-model", "the regenerated sanitise_filename model could not be evaluated: " + (out[2] or out[1])[-300:], {}, no_input=True)
+        model = None
+    src = os.path.join(tmp, "stems")
+    outd = os.path.join(tmp, "stems_out")
+    os.makedirs(src)
+    os.makedirs(outd)
+    for st in stems:
+        open(os.path.join(src, st + ".py"), "w").write(UFL_TINY)
+    p = run_cli(tmp, ["-d", outd, *[os.path.join(src, st + ".py") for st in stems]])
+    written = sorted(os.listdir(outd))
+    inc = os.path.join(common.REPO, "ffcx", "codegeneration")
+    ident = re.compile(r"^[A-Za-z0-9_]+$")
+    for i, st in enumerate(stems):
+        hs = [w for w in written if w.endswith(".h") and w.startswith(f"f{i}_")]
+        obs = hs[0][:-2] if len(hs) == 1 else None
+        payload = {"file_name": st + ".py", "ufl": UFL_TINY, "written": [w for w in written if w.startswith(f"f{i}_")][:6], "cli_stderr": p.stderr[-300:]}
+        if model is not None:
+            v.oblige(obs == model[i])
+        # the property on this name
+        good = obs is not None and ident.match(obs) is not None and os.path.exists(os.path.join(outd, obs + ".c"))
+        why = f"output stem {obs!r}"
+        if good:
+            header = open(os.path.join(outd, obs + ".h")).read()
+            decl = re.findall(r"^extern\s+ufcx_\w+\*?\s+(\S+);", header, re.M)
+            alias = f"form_{obs}_a"
+            if alias not in decl:
+                good, why = False, f"alias {alias} not declared; header declares {decl[:4]}"
+            else:
+                cc = subprocess.run(["gcc", "-std=c17", "-fsyntax-only", "-Werror=implicit-function-declaration", "-I", inc, os.path.join(outd, obs + ".c")],
+                                    capture_output=True, text=True)
+                if cc.returncode != 0:
+                    good, why = False, "source does not compile: " + cc.stderr[:200]
+        v.oblige(good)
+        if not good:
+            v.violation("cli-file-name", f"ffcx on a UFL file called {st + '.py'!r}: {why}", payload)
+        elif model is not None and obs != model[i]:
+            v.violation("sanitise-correspondence", f"file {st + '.py'!r}: ffcx wrote stem {obs!r}, the regenerated model says {model[i]!r}", payload)
+        elif i < 3:
+            v.samples.append({"file": st + ".py", "stem": obs})
+    return len(stems)
+
+
 RUNNER = r'''
 import sys, os
 sys.path.insert(0, os.environ["FFCX_REPO"])
@@ -204,6 +291,7 @@ def run(v, tier, seed, g):
             except Exception as e:  # noqa: BLE001
                 v.oblige(False)
                 v.violation("cli-vs-jit-run", f"comparison could not run: {e} {r1.stderr[-200:]} {r2.stderr[-200:]}", {}, no_input=True)
+        nstems = stems_check(v, tmp, seed, tier)
         # 5. option precedence over the three sources, every subset
         pw = os.path.join(tmp, "pwd")
         xdg = os.path.join(tmp, "xdg")
@@ -246,8 +334,9 @@ def run(v, tier, seed, g):
     cov = {"checker_cmd": f"./check C20 --tier {tier}",
            "trusted_base": ["Coq kernel + VM", "tr_opts.py (option table, argparse defaults, merge order read off the source)",
                             "UFL's load_ufl_file", "gcc / nm / cffi as observers"],
-           "evaluations": 5 + 5, "distinct_nontrivial": 10,
-           "rule": "one UFL file with named forms, a forms list, an expression and an element through ffcx.main.main; 5 combinations of the three option sources",
+           "evaluations": 5 + 5 + nstems, "distinct_nontrivial": 10 + nstems,
+           "rule": "one UFL file with named forms, a forms list, an expression and an element through ffcx.main.main; 5 combinations of the three option sources; "
+                   f"{nstems} file names (pinned punctuation / non-ASCII + seeded random) through ffcx.main and through the regenerated sanitise_filename model",
            "axioms_under_property_theorems": g.get("axioms", [])}
     return v.finish("proof", cov, ["programs: one representative UFL file (plus the option matrix); kernels compared with the JIT path bit for bit"])
 
